@@ -37,7 +37,7 @@ def lit(t, r):
     if t == HEX:
         return r.choice(["0x0", "0x1", "0x1F", "0xff", "0x10", "0x3"])
     if t == FLOAT:
-        return r.choice(["0.5", "1.5", "10.0", "3.25"])
+        return r.choice(["0.5", "1.5", "10.0", "3.25", "5", "1e1", "0.50"])  # incl. non-canonical spellings
     if t == STRING:
         return '"%s"' % r.choice(["a", "b c", "x\\\\y", 'q\\"t', "", "hello", "n", "y"])
     return r.choice(["y", "n"])
